@@ -197,6 +197,8 @@ def _dead_under_constants(prog: Program, fi: FuncInfo, facts) -> Optional[str]:
 
 def run(prog: Program, rep, tier: str) -> None:
     rep.explanation = EXPLANATION
+    from . import c12
+    c12.path_shape_rule(prog, rep)
     funcs = [f for f in prog.iter_functions() if prog.in_scope(f) and "FixedActiveSetNewtonMethod" not in f.qualname]
     # ---- (1) certain crashes ---------------------------------------------------------------------------
     n_calls = sum(1 for f in funcs for n in own_nodes(f.node) if isinstance(n, ast.Call))
